@@ -14,3 +14,8 @@ for be in BACKS:
             xform=back_xform(['is_no_message_queue', helper], refparams=(), methods=[helper], rewrites=[
                 dict(name='OVL-call-ev', pat=helper + ' ( self , EventType , evt , is_no_message_queue ( library_sm ) )', rep='queue_helper ( self , evt , is_no_message_queue ( library_sm ) )', min=0, max=1),
                 dict(name='OVL-call', pat=helper + ' ( self , is_no_message_queue ( library_sm ) )', rep='queue_helper ( self , evt , is_no_message_queue ( library_sm ) )', min=0, max=1)]), replay=['queue']))
+
+    for nm, props in (('call_no_transition', ['C06', 'C01', 'C13']), ('call_no_transition_internal', ['C06', 'C01', 'C13']), ('default_eventless_transition', ['C10', 'C06', 'C13'])):
+        UNITS.append(Unit(be + '.' + nm, props, be, Part(SM, [], ('static HandledEnum %s ( library_sm & , int , int , Event const & )' if be == 'back' else 'static HandledEnum %s ( library_sm & , int , int , Event & )') % nm),
+            'HandledEnum default_cell(fsm_t* fsm, int region, int state, event_t evt)', 'api_back.spec.h', defines=['UNIT_DEFAULT_CELL=1'],
+            xform=back_xform([], refparams=()), replay=['sel']))
